@@ -5,7 +5,8 @@
 #ifdef __cplusplus
 extern "C" {
 #endif
-typedef struct sval { int tag; double num; char str[128]; void *ud; char meta[64]; } sval;
+/* isint/inum: a number that is an integer (lua_pushinteger, or an integer argument) keeps all 64 bits, as in Lua 5.3 */
+typedef struct sval { int tag; double num; char str[128]; void *ud; char meta[64]; int isint; long long inum; } sval;
 lua_State *stub_newstate(void);
 void stub_settop0(lua_State *L);
 void stub_push(lua_State *L, sval v);
